@@ -528,7 +528,7 @@ func propC09(j *Job) {
 	// ABORT while the other side is still inside its connect call
 	for _, b := range bases[:2] { // (two clients complete each other's handshake without COOKIE-ACKs)
 		j.Explore(fmt.Sprintf("AH/%s", b.name), abortDuringConnectScenario(b.a, b.b), Budget{}, nil)
-		j.Explore(fmt.Sprintf("AS/%s", b.name), abortDuringShutdownScenario(b.a, b.b), Budget{D: 2}, nil)
+		j.Explore(fmt.Sprintf("AS/%s", b.name), abortDuringShutdownScenario(b.a, b.b), Budget{D: map[bool]int{false: 2, true: 3}[j.Thorough()]}, nil)
 		j.Explore(fmt.Sprintf("AS/%s/close-fails", b.name), abortDuringShutdownScenario(b.a, b.b, true), Budget{}, nil)
 	}
 	// a blocking write made from the buffered-amount callback, ended by Close / Abort
